@@ -120,11 +120,14 @@ func ev(op string, k int, a string, q int) core.Event {
 // Events expands the op list of the system: "op" or "op:variant"; per-slot ops are repeated for every slot.
 func (s *Sys) Events() []core.Event {
 	var out []core.Event
-	global := map[string]bool{"tick": true, "tick_begin": true, "cont": true}
+	// "op*" = the call is made for every session (s = 0)
+	global := func(op string) bool {
+		return op == "tick" || op == "tick_begin" || op == "cont" || strings.HasSuffix(op, "*")
+	}
 	for k := 1; k <= s.N; k++ {
 		for _, o := range s.Ops {
 			op, a, _ := strings.Cut(o, ":")
-			if global[op] {
+			if global(op) {
 				continue
 			}
 			out = append(out, ev(op, k, a, 0))
@@ -132,8 +135,8 @@ func (s *Sys) Events() []core.Event {
 	}
 	for _, o := range s.Ops {
 		op, a, _ := strings.Cut(o, ":")
-		if global[op] {
-			out = append(out, ev(op, 0, a, 0))
+		if global(op) {
+			out = append(out, ev(strings.TrimSuffix(op, "*"), 0, a, 0))
 		}
 	}
 	for _, q := range s.Advs {
@@ -438,6 +441,15 @@ func (in *inst) call(op string, k int, a string) bool {
 	case "unwalled":
 		return in.mgr.ClearWalledGarden(id) == nil
 	case "activity":
+		if k == 0 { // every session except the one a parked cleanup pass is ending right now
+			v := in.victim()
+			for j := 1; j <= in.s.N; j++ {
+				if j != v {
+					in.mgr.UpdateActivity(in.sid(j), 1, 1, 1, 1)
+				}
+			}
+			return true
+		}
 		return in.mgr.UpdateActivity(id, 1, 1, 1, 1) == nil
 	case "term":
 		return in.mgr.TerminateSession(ctx, id, reasons[a]) == nil
@@ -461,6 +473,9 @@ func allowedDuring(w *worker, victim int, op string, k int) bool {
 	case "adv", "tick", "auth_begin", "term_begin", "assign_begin", "tick_begin":
 		return false
 	}
+	if k == 0 { // a call made for every session: only while nothing or a cleanup pass is in flight
+		return w.kind == "tick" && op == "activity"
+	}
 	switch w.kind {
 	case "auth":
 		if k == w.slot {
@@ -474,8 +489,6 @@ func allowedDuring(w *worker, victim int, op string, k int) bool {
 			return op == "term"
 		}
 		return true
-	case "tick":
-		return k != victim && (op == "activity" || op == "activate")
 	}
 	return false
 }
